@@ -152,7 +152,8 @@ def faults(tier):
     if tier == "thorough":
         # truncation of both paired files at every offset of R2
         for off in range(0, len(t2), 3):
-            F.append(dict(kind="paired-trunc-r2", off=off, files={"in1.fq": t1, "in2.fq": t2[:off]}, paired="two"))
+            # R2 cut anywhere before its end: mates are missing (cut at a record boundary) or the last record is broken
+            F.append(dict(kind="paired-trunc-r2", off=off, files={"in1.fq": t1, "in2.fq": t2[:off]}, paired="two", malformed=True))
     for i, f in enumerate(F):
         f["id"] = i
     return F
